@@ -8,6 +8,7 @@ import (
 
 	"google.golang.org/grpc"
 	"google.golang.org/grpc/codes"
+	"google.golang.org/grpc/peer"
 	"google.golang.org/grpc/status"
 
 	"github.com/relab/gorums/ordering"
@@ -121,7 +122,10 @@ func VerifC04(conns, reqs, allowNever, allowDisconnect int) {
 		g.finished = append(g.finished, make([]bool, reqs))
 		g.codes = append(g.codes, make([]uint32, reqs))
 		g.behaviour = append(g.behaviour, make([]int, reqs))
-		ctx, cancel := context.WithCancel(context.WithValue(context.Background(), vConnKey{}, c))
+		// every client has the SAME peer address string, as over bufconn or unnamed unix
+		// sockets: connections are told apart by their streams, not by what the peer calls itself
+		pctx := peer.NewContext(context.Background(), &peer.Peer{Addr: vPeerAddr{}})
+		ctx, cancel := context.WithCancel(context.WithValue(pctx, vConnKey{}, c))
 		cancels[c] = cancel
 		st := &vSrvStream{ctx: ctx, conn: c, g: g}
 		for k := 0; k < reqs; k++ {
@@ -188,7 +192,7 @@ func VerifC04(conns, reqs, allowNever, allowDisconnect int) {
 			continue
 		}
 		// every request whose predecessors released has been handled, exactly once, in order
-		vAssert(g.started[c] == expectHandled[c], "C03.server-not-all-handled|C04.request-delayed-although-predecessors-released")
+		vAssert(g.started[c] == expectHandled[c], "C03.server-not-all-handled|C04.request-delayed-although-predecessors-released|C09.server-stops-serving-a-connection")
 		vAssert(!returned[c], "C04.stream-ended-early")
 		// replies: one per replying handler, under its own message id, with its status
 		nreplies := 0
@@ -216,11 +220,28 @@ func VerifC04(conns, reqs, allowNever, allowDisconnect int) {
 					} else {
 						vAssert(st.Code() == codes.OK, "C13.ok-status-wrapped")
 						r, ok := m.Message.(*vMsg)
-						vAssert(ok && r.tok == 1000+k && r.node == uint32(c), "C04.reply-routing|C05.reply-with-a-foreign-payload")
+						vAssert(ok && r.tok == 1000+k && r.node == uint32(c), "C04.reply-routing|C05.reply-with-a-foreign-payload|C01.reply-of-another-request")
 					}
 				}
 			}
-			vAssert(found == 1, "C04.reply-count|C05.reply-under-a-foreign-message-id")
+			vAssert(found == 1, "C04.reply-count|C05.reply-under-a-foreign-message-id|C01.reply-of-another-request")
+		}
+		// a request for a method nobody registered may be ignored or answered with an error
+		// status under its own message id - never with a success, never twice
+		for k := 0; k < reqs; k++ {
+			if g.behaviour[c][k] != c04UnknownMethod {
+				continue
+			}
+			id := uint64(100*c + k + 1)
+			n := 0
+			for _, m := range streams[c].sent {
+				if m.Metadata.MessageID == id {
+					n++
+					vAssert(status.FromProto(m.Metadata.GetStatus()).Code() != codes.OK, "C04.unknown-method-answered-with-success")
+				}
+			}
+			vAssert(n <= 1, "C04.reply-count|C05.reply-under-a-foreign-message-id|C01.reply-of-another-request")
+			nreplies += n
 		}
 		vAssert(len(streams[c].sent) == nreplies, "C04.spurious-reply|C05.reply-nobody-asked-for")
 	}
@@ -231,6 +252,11 @@ func VerifC04(conns, reqs, allowNever, allowDisconnect int) {
 }
 
 type vConnKey struct{}
+
+type vPeerAddr struct{}
+
+func (vPeerAddr) Network() string { return "bufconn" }
+func (vPeerAddr) String() string  { return "bufconn" }
 
 // c04Impl is the "user" handler: its behaviour is chosen per request by the harness.
 func c04Impl(g *c04Ghost, ctx ServerCtx, req *vMsg) (*vMsg, error) {
